@@ -85,6 +85,22 @@ def coupdate(ck, P):
                         okk = False
                         detail = "%s is adjusted by `%s` but %s by `%s`" % (m, mir.fmt(d, f)[:70], members[0], mir.fmt(d0, f)[:70])
             ck.decide(okk, R, inst, "all three adjusted by the same expression with the right signs", "%s: %s" % (f.path, detail), where(f, adj[members[0]][0][3]))
+            # ... and on the same paths: no return is reachable with one member moved and another not
+            rets = [b for b, k in f.exits() if k == "return"]
+            wblocks = {m: {x[2] for x in adj[m]} for m in members}
+            split = []
+            for m1 in members:
+                for m2 in members:
+                    if m1 == m2:
+                        continue
+                    for b1 in wblocks[m1]:
+                        before = flow.reaches_avoiding(f, [0], [b1], cut_blocks=wblocks[m2] - {b1}) or b1 == 0
+                        after = flow.reaches_avoiding(f, [b1], rets, cut_blocks=wblocks[m2] - {b1})
+                        if before and after and b1 not in wblocks[m2]:
+                            split.append((m1, m2))
+            ck.decide(not split, R, inst + ":same-paths", "the members are adjusted on the same paths",
+                      "%s can return with %s adjusted but %s not (an early return between the two updates): the cursor and its counters go "
+                      "out of step on that path" % (f.path, split[0][0] if split else "", split[0][1] if split else ""), where(f, adj[members[0]][0][3]))
             ck.sample("%s: %s += %s" % (f.path.split("::")[-1], gname, mir.fmt(adj[members[0]][0][1], f)[:60]))
     for path, groups in EXPECTED_SITES.items():
         got = seen.get(path, set())
